@@ -169,6 +169,43 @@ class Gen(Scenario):
             ctx.eq(f"derivative [{v}]", dn[i], do[i])
 
 
+def _load_as(name, filename):
+    import importlib.util
+    import sys
+    from pathlib import Path
+
+    path = Path(__file__).resolve().parent.parent / "c11mods" / filename
+    spec = importlib.util.spec_from_file_location(name, path)
+    mod = importlib.util.module_from_spec(spec)
+    sys.modules[name] = mod
+    spec.loader.exec_module(mod)
+    return mod
+
+
+class GenAfterRedefinition(Gen):
+    """Code is generated for a model; then a function is re-defined (same module and qualified name, another body) and code
+    is generated for a model that uses the new definition: the second source must describe the second model."""
+
+    def __init__(self):
+        self.spec = None
+        self.key = "C11/function_redefined_between_generations"
+
+    def run(self, ctx):
+        from mxlpy.meta.codegen_mxlpy import generate_mxlpy_code
+
+        def spec_for(mod):
+            return dict(name="function_redefined_between_generations", params=[("k", None)], vars=[("x", None)],
+                        reactions=[("v1", mod.rate, ["x", "k"], {"x": -1})])
+
+        first = M.build(spec_for(_load_as("c11_redef", "redef_v1.py")), ctx, vals={"k": 1.5, "x": 2.0})
+        try:
+            generate_mxlpy_code(first)
+        except Exception:  # noqa: BLE001,S110
+            pass
+        self.spec = spec_for(_load_as("c11_redef", "redef_v2.py"))
+        Gen.run(self, ctx)
+
+
 def scenarios(tier, seed):
     scs = []
     base = M.no_surrogates(M.base_shapes()) + extra_specs()
@@ -176,6 +213,7 @@ def scenarios(tier, seed):
         orders = M.all_orders(s, kinds=("derived", "reactions")) if tier != "quick" else [s]
         for o in orders:
             scs.append(Gen(o))
+    scs.append(GenAfterRedefinition())
     if tier != "quick":
         scs += [Gen(g) for g in M.grammar_shapes(with_surrogates=False)]
     return scs
